@@ -208,23 +208,44 @@ impl Monitor for C05 {
             // the hash chains keep positions in u16 and renormalise periodically: place a maximal match
             // at every offset around the marks where that arithmetic wraps
             let mut r = Rng::derive(self.seed, 0x0505, k, 0);
-            let mark = [65536usize, 65536 + 32768, 131072][(k / 800) as usize % 3];
-            let off = mark - 700 + (k % 800) as usize;
+            // renormalisation happens when (position + 8) reaches 0xfe08 and then every 0x7e00 bytes
+            let mark = 65024 + 32256 * ((k / 800) as usize % 3);
+            let off = mark - 500 + (k % 800) as usize;
             let mut p = crate::plain::text(&mut r, off);
-            let b = r.byte();
-            let run = 300 + r.usize_below(600);
-            p.extend(std::iter::repeat(b).take(run));
-            let tail = 20 + r.usize_below(3000);
-            p.extend(crate::plain::text(&mut r, tail));
-            let level = *r.pick(&[1, 4, 6, 6, 9]);
-            let d = match r.below(4) {
-                0 => crate::comp::libdeflate_raw(&p, *r.pick(&[1, 6, 9, 12])),
-                1 => crate::comp::zlibng_raw(&p, level, 0, 15, 8),
-                _ => crate::comp::zlib_raw(&p, level, 0, 15, *r.pick(&[8, 8, 9]), &[]),
+            let b = loop {
+                let b = r.byte();
+                if Some(&b) != p.last() {
+                    break b;
+                }
             };
-            if let Some(d) = d {
-                ctx.count("cases:run_across_position_wrap");
-                self.judge_sampled(&d, &format!("run of {} starting at plaintext offset {} (level {})", run, off, level), ctx);
+            // literal + one maximal match + a short rest of the run (so that lazy evaluation probes right
+            // behind the maximal match), then text with shorter runs of the same byte (matches that point
+            // into the interior of the long one make the insertion policy look like "add all")
+            let run = 259 + *r.pick(&[3usize, 5, 10, 20, 60, 200, 400]);
+            p.extend(std::iter::repeat(b).take(run));
+            for _ in 0..1 + r.usize_below(4) {
+                let t = 20 + r.usize_below(800);
+                p.extend(crate::plain::text(&mut r, t));
+                let l = 4 + r.usize_below(300);
+                p.extend(std::iter::repeat(b).take(l));
+            }
+            let tail = 20 + r.usize_below(2000);
+            p.extend(crate::plain::text(&mut r, tail));
+            // every offset under several compressor settings (greedy and lazy, fast and slow insertion)
+            let ml = *r.pick(&[8, 8, 9, 7]);
+            let streams: Vec<(String, Option<Vec<u8>>)> = vec![
+                ("zlib 1".into(), crate::comp::zlib_raw(&p, 1, 0, 15, ml, &[])),
+                ("zlib 4".into(), crate::comp::zlib_raw(&p, 4, 0, 15, ml, &[])),
+                ("zlib 6".into(), crate::comp::zlib_raw(&p, 6, 0, 15, ml, &[])),
+                ("zlib 9".into(), crate::comp::zlib_raw(&p, 9, 0, 15, ml, &[])),
+                ("zlib-ng 6".into(), crate::comp::zlibng_raw(&p, 6, 0, 15, 8)),
+                ("libdeflate 6".into(), crate::comp::libdeflate_raw(&p, 6)),
+            ];
+            for (what, d) in streams {
+                if let Some(d) = d {
+                    ctx.count("cases:run_across_position_wrap");
+                    self.judge_sampled(&d, &format!("run of {} starting at plaintext offset {} ({})", run, off, what), ctx);
+                }
             }
             return;
         }
